@@ -5,7 +5,7 @@ sidedness / tail of distribution calls, NaN masks, level arithmetic.'''
 import ast
 
 from ..astutil import (dotted, call_name, receiver, txt, calls_in,
-                       walk_local, names_loaded)
+                       walk_local, names_loaded, enclosing_chain)
 
 ROWS = ('lt', 'eq', 'gt', 'unordered')
 _CMP = {ast.Lt: {'lt'}, ast.LtE: {'lt', 'eq'}, ast.Gt: {'gt'},
@@ -205,6 +205,161 @@ def nan_unsafe_extremum(func_node, expr, depth=0):
     return None
 
 
+def guard_chain(parents, node, stop):
+    '''[(test, polarity)] of the `if` statements enclosing node (up to the
+    node `stop`), innermost first; polarity False for an else branch.'''
+    chain = []
+    cur = node
+    while True:
+        par = parents.get(id(cur))
+        if par is None or par is stop:
+            return chain
+        if isinstance(par, ast.If) and cur is not par.test:
+            chain.append((par.test, any(cur is s for s in par.body)))
+        cur = par
+
+
+def _terminates(body):
+    '''Every path through the block ends in return / raise / continue /
+    break (syntactic, conservative: False when unsure).'''
+    if not body:
+        return False
+    last = body[-1]
+    if isinstance(last, (ast.Return, ast.Raise, ast.Continue, ast.Break)):
+        return True
+    if isinstance(last, ast.If):
+        return _terminates(last.body) and _terminates(last.orelse)
+    return False
+
+
+def path_condition(func_node, node):
+    '''[(test, polarity)] known to hold when `node` is evaluated: the
+    enclosing `if`s plus, in every enclosing block, the earlier sibling `if`s
+    one branch of which always leaves (early return / raise).'''
+    parents = enclosing_chain(func_node)
+    conds = []
+    cur = node
+    while True:
+        par = parents.get(id(cur))
+        if par is None:
+            return conds
+        if isinstance(par, ast.IfExp) and cur is not par.test:
+            conds.append((par.test, cur is par.body))
+        if isinstance(par, ast.If) and cur is not par.test:
+            conds.append((par.test, any(cur is s for s in par.body)))
+        for fld in ('body', 'orelse', 'finalbody'):
+            block = getattr(par, fld, None)
+            if isinstance(block, list) and any(cur is s for s in block):
+                for prev in block:
+                    if prev is cur:
+                        break
+                    if isinstance(prev, ast.If):
+                        if _terminates(prev.body) and not _terminates(
+                                prev.orelse):
+                            conds.append((prev.test, False))
+                        elif _terminates(prev.orelse) and not _terminates(
+                                prev.body):
+                            conds.append((prev.test, True))
+        if par is func_node:
+            return conds
+        cur = par
+
+
+def implies_is_none(test, pol, names):
+    '''Does (test == pol) imply that one of the dotted `names` is None?'''
+    if isinstance(test, ast.UnaryOp) and isinstance(test.op, ast.Not):
+        return implies_is_none(test.operand, not pol, names)
+    if isinstance(test, ast.Compare) and len(test.ops) == 1 and isinstance(
+            test.comparators[0], ast.Constant) and \
+            test.comparators[0].value is None and \
+            dotted(test.left) in names:
+        return isinstance(test.ops[0], ast.Is) if pol else \
+            isinstance(test.ops[0], ast.IsNot)
+    if isinstance(test, ast.BoolOp):
+        if isinstance(test.op, ast.And) and pol:
+            return any(implies_is_none(v, True, names) for v in test.values)
+        if isinstance(test.op, ast.Or) and not pol:
+            return any(implies_is_none(v, False, names)
+                       for v in test.values)
+        if isinstance(test.op, ast.Or) and pol:
+            return all(implies_is_none(v, True, names) for v in test.values)
+        if isinstance(test.op, ast.And) and not pol:
+            return all(implies_is_none(v, False, names)
+                       for v in test.values)
+    return False
+
+
+def early_exit_form(func_node, is_atom):
+    '''The early-exit spelling of a quantifier:
+
+        for x in data:            (any nesting of loops / type dispatch)
+            if <T>: return False
+        return True
+
+    is  for-all x: not T.  Returns {id(return node): form} for the constant
+    returns of such a function, {} when the function is not of that shape.
+    An early exit whose guards contain no recognised atom makes the whole
+    form unknown (None).'''
+    body = [s for s in func_node.body
+            if not (isinstance(s, ast.Expr) and
+                    isinstance(s.value, ast.Constant))]
+    if not body or not isinstance(body[-1], ast.Return) or not isinstance(
+            body[-1].value, ast.Constant) or not isinstance(
+                body[-1].value.value, bool):
+        return {}
+    final = body[-1]
+    default = final.value.value
+    rets = [n for n in walk_local(func_node) if isinstance(n, ast.Return)
+            and n is not final]
+    if not rets or not all(
+            isinstance(r.value, ast.Constant) and
+            r.value.value is (not default) for r in rets):
+        return {}
+    parents = enclosing_chain(func_node)
+    forms = []
+    for ret in rets:
+        chain = guard_chain(parents, ret, func_node)
+        known = []
+        for test, pol in chain:
+            expr = test if pol else ast.UnaryOp(op=ast.Not(), operand=test)
+            form = aggregation(expr, is_atom)
+            if form is not None:
+                known.append(form)
+        if not known:
+            forms.append(None)
+            continue
+        # the exit is taken when every recognised guard holds
+        if len(known) == 1:
+            taken = known[0]
+        else:
+            pols = {f[1] for f in known}
+            quants = {f[0] for f in known} - {'scalar'}
+            taken = ('forall', pols.pop()) if len(pols) == 1 and \
+                quants <= {'forall'} else ('mixed', +1)
+        forms.append(taken)
+    if any(f is None for f in forms):
+        result = None
+    else:
+        flip = {'forall': 'exists', 'exists': 'forall', 'scalar': 'scalar',
+                'mixed': 'mixed'}
+        per_exit = []
+        for quant, pol in forms:
+            # default True: verdict = for-all loop items: not taken
+            # default False: verdict = exists a loop item: taken
+            if default:
+                quant, pol = flip[quant], -pol
+                per_exit.append(('forall' if quant in ('forall', 'scalar')
+                                 else 'mixed', pol))
+            else:
+                per_exit.append(('exists' if quant in ('exists', 'scalar')
+                                 else 'mixed', pol))
+        bad = [f for f in per_exit if f != per_exit[0]]
+        result = per_exit[0] if not bad else ('mixed', per_exit[0][1])
+    out = {id(r): result for r in rets}
+    out[id(final)] = result
+    return out
+
+
 def accumulator_form(func_node, is_atom, resolve=None):
     '''Verdict of a method body.  Handles `return <expr>` and the
     accumulator idiom  acc = True; for ..: acc = acc and X; return acc.
@@ -224,10 +379,14 @@ def accumulator_form(func_node, is_atom, resolve=None):
                 updates.setdefault(name, []).append(node.value)
             else:
                 updates.setdefault(name, []).append(node.value)
+    early = early_exit_form(func_node, is_atom)
     for node in walk_local(func_node):
         if not isinstance(node, ast.Return) or node.value is None:
             continue
         val = node.value
+        if id(node) in early:
+            out.append((node, early[id(node)]))
+            continue
         unsafe = nan_unsafe_extremum(func_node, val)
         if unsafe is not None:
             out.append((node, ('nan-unsafe:' + txt(unsafe)[:50], +1)))
